@@ -288,6 +288,24 @@ func shortName(n string) string {
 func (an *Analyzer) callRepo(s *State, f *Frame, call *ssa.Call, targets []*ssa.Function, final bool) {
 	com := call.Common()
 	var rets []retState
+	// what the callees can reach: their arguments (and globals); the rest of the caller's knowledge is set aside
+	var roots []cell
+	for _, a := range com.Args {
+		roots = append(roots, an.cellOf(s, f, a))
+	}
+	if com.IsInvoke() {
+		recv := an.refOf(s, f, com.Value)
+		roots = append(roots, cell{t: recv})
+		if b, ok := an.unbox(s, recv); ok {
+			roots = append(roots, b)
+		}
+	}
+	if mc, ok := com.Value.(*ssa.MakeClosure); ok {
+		for _, b := range mc.Bindings {
+			roots = append(roots, an.cellOf(s, f, b))
+		}
+	}
+	base, rest := an.splitForCallee(s, roots)
 	for _, tgt := range targets {
 		// recursion / depth
 		rec := false
@@ -308,8 +326,7 @@ func (an *Analyzer) callRepo(s *State, f *Frame, call *ssa.Call, targets []*ssa.
 			return
 		}
 		nf := an.frame(f, call, tgt)
-		st := s.clone()
-		st.guards = nil
+		st := base.clone()
 		// bind parameters
 		args := com.Args
 		params := tgt.Params
@@ -342,7 +359,9 @@ func (an *Analyzer) callRepo(s *State, f *Frame, call *ssa.Call, targets []*ssa.
 				}
 			}
 		}
+		an.callerRoots = append(an.callerRoots, s)
 		rs := an.analyzeFunc(tgt, nf, st, final)
+		an.callerRoots = an.callerRoots[:len(an.callerRoots)-1]
 		rets = append(rets, rs...)
 	}
 	if len(rets) == 0 {
@@ -352,6 +371,7 @@ func (an *Analyzer) callRepo(s *State, f *Frame, call *ssa.Call, targets []*ssa.
 		return
 	}
 	an.mergeReturns(s, f, call, rets)
+	s.reattach(rest)
 }
 
 func (an *Analyzer) callExternalHavoc(s *State, f *Frame, call *ssa.Call) {
@@ -425,6 +445,14 @@ func (an *Analyzer) mergeReturns(s *State, f *Frame, call *ssa.Call, rets []retS
 				st.iv[an.lenTerm(rt)] = iv
 			}
 			an.eqLin(st, an.capTerm(rt), Lin{an.capTerm(rc.t), 0})
+			// fields of a returned struct value
+			if stt, ok := rt.typ.Underlying().(*types.Struct); ok {
+				for k := 0; k < stt.NumFields() && k < 64; k++ {
+					if fc, ok := st.mem[an.svalAddr(rc.t, k)]; ok {
+						st.mem[an.svalAddr(rt, k)] = fc
+					}
+				}
+			}
 			// memory reachable from a returned pointer: re-key field bindings of the returned object
 			for addr, c := range st.mem {
 				if addr.kind == "addr" && addr.a == rc.t && strings.HasPrefix(addr.key, "addr|F(") {
@@ -469,7 +497,10 @@ func (an *Analyzer) mergeReturns(s *State, f *Frame, call *ssa.Call, rets []retS
 	}
 	merged := joinAll(all, "|all")
 	var gd *guard
-	if errIdx >= 0 && len(unkG) == 0 && (len(nilG) > 0 || len(nonG) > 0) {
+	if errIdx >= 0 && (len(nilG) > 0 || len(nonG) > 0 || len(unkG) > 0) {
+		// returns whose error nil-ness is unknown belong to both groups
+		nilG = append(nilG, unkG...)
+		nonG = append(nonG, unkG...)
 		g := guard{on: resCells[errIdx].t}
 		if jn := joinAll(nilG, "|nil"); jn != nil {
 			g.whenNil = jn
@@ -483,8 +514,25 @@ func (an *Analyzer) mergeReturns(s *State, f *Frame, call *ssa.Call, rets []retS
 		}
 		gd = &g
 	}
-	// replace caller state by merged callee state (it was a clone of the caller's)
+	// replace caller state by the merged callee state, re-attaching the caller's own SSA bindings
+	// (they were not copied into the callee)
+	saveVals, saveInts, saveTuples := s.vals, s.ints, s.tuples
 	*s = *merged.clone()
+	for k, v := range saveVals {
+		if _, ok := s.vals[k]; !ok {
+			s.vals[k] = v
+		}
+	}
+	for k, v := range saveInts {
+		if _, ok := s.ints[k]; !ok {
+			s.ints[k] = v
+		}
+	}
+	for k, v := range saveTuples {
+		if _, ok := s.tuples[k]; !ok {
+			s.tuples[k] = v
+		}
+	}
 	if nres == 1 {
 		an.bind(s, f, call, resCells[0])
 	} else if nres > 1 {
@@ -494,6 +542,182 @@ func (an *Analyzer) mergeReturns(s *State, f *Frame, call *ssa.Call, rets []retS
 		s.guards = []guard{*gd}
 	} else {
 		s.guards = nil
+	}
+	an.pruneCallee(s, fmt.Sprintf("%s/%p", f.key, call), resCells)
+}
+
+// pruneCallee drops the callee's frame-local bindings and the facts on terms nothing refers to any more.
+func (an *Analyzer) pruneCallee(s *State, prefix string, keep []cell) {
+	local := func(fk string) bool { return strings.HasPrefix(fk, prefix) }
+	for k := range s.vals {
+		if k.f != nil && local(k.f.key) {
+			delete(s.vals, k)
+		}
+	}
+	for k := range s.ints {
+		if k.f != nil && local(k.f.key) {
+			delete(s.ints, k)
+		}
+	}
+	for k := range s.tuples {
+		if k.f != nil && local(k.f.key) {
+			delete(s.tuples, k)
+		}
+	}
+	// mark
+	marked := map[*Term]bool{}
+	var mark func(t *Term)
+	mark = func(t *Term) {
+		if t == nil || marked[t] {
+			return
+		}
+		marked[t] = true
+		mark(t.a)
+		mark(t.b)
+	}
+	markCell := func(c cell) {
+		if c.int {
+			mark(c.lin.base)
+		} else {
+			mark(c.t)
+		}
+	}
+	for _, rs := range append([]*State{s}, an.callerRoots...) {
+		for _, t := range rs.vals {
+			mark(t)
+		}
+		for _, l := range rs.ints {
+			mark(l.base)
+		}
+		for _, tup := range rs.tuples {
+			for _, c := range tup {
+				markCell(c)
+			}
+		}
+	}
+	// memory is live only if reachable from live roots (fixpoint below)
+	for _, c := range keep {
+		markCell(c)
+	}
+	for t := range s.part {
+		mark(t)
+	}
+	for _, g := range s.guards {
+		mark(g.on)
+	}
+	for _, ts := range s.tbl {
+		mark(ts.arg)
+	}
+	// memory reachable from the marked roots
+	reach := func(addr *Term) bool {
+		for x := addr; x != nil; x = x.a {
+			if marked[x] || x.kind == "global" {
+				return true
+			}
+			if x.kind != "addr" && x.kind != "boxaddr" && x.kind != "sval" {
+				break
+			}
+		}
+		return false
+	}
+	for changed := true; changed; {
+		changed = false
+		for addr, c := range s.mem {
+			if !reach(addr) {
+				continue
+			}
+			if !marked[addr] {
+				mark(addr)
+				changed = true
+			}
+			if c.int {
+				if c.lin.base != nil && !marked[c.lin.base] {
+					mark(c.lin.base)
+					changed = true
+				}
+			} else if c.t != nil && !marked[c.t] {
+				mark(c.t)
+				changed = true
+			}
+		}
+	}
+	for addr := range s.mem {
+		if !marked[addr] {
+			delete(s.mem, addr)
+		}
+	}
+	alive := func(t *Term) bool {
+		if t == nil {
+			return true
+		}
+		if marked[t] {
+			return true
+		}
+		// facts about len/cap/add of live terms stay
+		switch t.kind {
+		case "len", "cap":
+			return marked[t.a]
+		case "add":
+			return marked[t.a] && marked[t.b]
+		}
+		return false
+	}
+	for t := range s.iv {
+		if !alive(t) {
+			delete(s.iv, t)
+		}
+	}
+	for x, m := range s.ub {
+		for y := range m {
+			if !alive(x) || !alive(y) {
+				s.delUB(x, y)
+			}
+		}
+		if len(m) == 0 {
+			delete(s.ub, x)
+		}
+	}
+	for y, m := range s.rub {
+		if len(m) == 0 {
+			delete(s.rub, y)
+		}
+	}
+	for t := range s.nn {
+		if !alive(t) {
+			delete(s.nn, t)
+		}
+	}
+	for t := range s.isnil {
+		if !alive(t) {
+			delete(s.isnil, t)
+		}
+	}
+	for t := range s.dyn {
+		if !alive(t) {
+			delete(s.dyn, t)
+		}
+	}
+	for t := range s.tbl {
+		if !alive(t) {
+			delete(s.tbl, t)
+		}
+	}
+	for c := range s.epoch {
+		// classes qualified by a local object that is no longer live
+		i := strings.Index(c, "alloc|")
+		if i < 0 {
+			continue
+		}
+		live := false
+		for t := range marked {
+			if t.kind == "alloc" && strings.HasSuffix(c, t.key) {
+				live = true
+				break
+			}
+		}
+		if !live {
+			delete(s.epoch, c)
+		}
 	}
 }
 
